@@ -1,3 +1,4 @@
 import Paroxy.Props.C08
 import Paroxy.Props.C11
 import Paroxy.Props.C14
+import Paroxy.Props.C03
